@@ -5,4 +5,4 @@ Require Import ExtrOcamlBasic.
 Extraction Language OCaml.
 Extraction "../ocaml/gen/c20_model.ml" switch_body proxy_tail wrappers end_action_events nojob_wrappers
   find_wrapper trace_call accept_trace job_runs obs_code observable trace_ok dispatch has_case wrapper_ok wrapper_wf
-  is_syscall_wrapper all_ops op_idx sys_idx.
+  is_syscall_wrapper all_ops op_idx sys_idx errno_carried errno_absent errno_after_wrapper.
